@@ -355,18 +355,37 @@ fn tunnel_part(rep: &Arc<Reporter>, args: &Args) {
     let ctx = Arc::new(env::make_ctx(&dir, env::CtxOpts::default()));
     let rt = env::rt_paused();
     let mut rng = Rng::derive(args.seed, 0xc08b, 0);
-    let rounds = args.qt(250, 6000);
-    for i in 0..rounds {
+    let rounds = args.qt(3000u64, 250_000u64);
+    // deterministic part: the interesting boundaries of (head | payload) x gap x closing side
+    let mut cases: Vec<(usize, Vec<usize>, u64, bool)> = vec![];
+    for plen in [1usize, 5, 100, 1000] {
+        for cuts in [vec![], vec![52], vec![50], vec![51], vec![53], vec![52 + plen - 1], vec![48, 52], vec![51, 53]] {
+            for gap in [0u64, 1, 10_000] {
+                for client_first in [true, false] {
+                    let mut c = cuts.clone();
+                    c.retain(|x| *x >= 1 && *x < 52 + plen);
+                    c.dedup();
+                    cases.push((plen, c, gap, client_first));
+                }
+            }
+        }
+    }
+    for _ in 0..rounds {
         let plen = *rng.pick(&[0usize, 1, 5, 100, 1000, 40_000, 200_000]);
-        let payload = crate::common::prng::coded_stream(args.seed ^ i, 0, 0, plen);
         let total = 52 + plen;
         let k = rng.below(4) as usize;
         let mut cuts: Vec<usize> = (0..k).map(|_| rng.range(1, (total - 1) as u64) as usize).collect();
         if rng.chance(1, 3) { cuts.push(rng.range(1, 51) as usize); } // a cut inside the head
+        if rng.chance(1, 6) { cuts.push(52); } // exactly between head and payload
+        cuts.retain(|x| *x >= 1 && *x < total);
         cuts.sort();
         cuts.dedup();
-        let gap = Duration::from_millis(*rng.pick(&[0u64, 1, 10_000]));
-        let client_first = rng.chance(1, 2);
+        cases.push((plen, cuts, *rng.pick(&[0u64, 1, 10_000]), rng.chance(1, 2)));
+    }
+    for (i, (plen, cuts, gap_ms, client_first)) in cases.into_iter().enumerate() {
+        let i = i as u64;
+        let payload = crate::common::prng::coded_stream(args.seed ^ i, 0, 0, plen);
+        let gap = Duration::from_millis(gap_ms);
         let r = rt.block_on(tunnel_case(&ctx, &payload, &cuts, gap, client_first));
         rep.evals(1);
         rep.distinct(common::fnv(format!("{}|{:?}|{:?}", plen, cuts, gap).as_bytes()));
